@@ -41,7 +41,8 @@ static const std::vector<std::string>& alphabet()
         "--no-opt", "--opt",     "--opt=v",    "--opt=",    "--opt==",   "--opt=a\nb", "-o",      "-o=",
         "-o=a=b",   "-oo",       "-ot",        "-to",       "-t",        "-tt",       "-tu",      "-tz",
         "-t-",      "-t=1",      "-tu=1",      "--tog",     "--tog=1",   "--ugg",     "-z",       "--zz",
-        "--zz=1",   "-m",        "--multi=x",  "- ",        "-\xff",     "--\n",      "-p",       "--out=1"
+        "--zz=1",   "-m",        "--multi=x",  "- ",        "-\xff",     "--\n",      "-p",       "--out=1",
+        "--optx",   "--op",      "--opt-x=1"
     };
     return a;
 }
@@ -175,6 +176,19 @@ int main(int argc, char** argv)
                 for_all_vectors(alpha, n_env_full, ctx,
                                 [&](const std::vector<std::string>& av) { one(D, av, env); });
         }
+        // (3b) two parses on one parser object: the second must still hit the exact boundary
+        {
+            std::vector<std::vector<std::string>> firsts = { {}, { "--opt=1" }, { "-t" }, { "--zz" }, { "--", "a", "b", "c" },
+                                                             { "x" }, { "--opt" }, { "--no-tog" }, { "-m", "1" } };
+            for (auto& D : decls)
+                for (auto& env : environments(D, false))
+                    for (auto& f : firsts)
+                        for_all_vectors(alpha, a.asan() ? 1 : 2, ctx, [&](const std::vector<std::string>& av) {
+                            long idx = ctx.next;
+                            ctx.each([&] { return chk.describe(D, av, env); },
+                                     [&](mc::Report& rep) { chk.run_second(D, f, env, av, env, rep, idx); });
+                        });
+        }
         // (4) thorough: one token deeper on the four richest declarations
         if (n_deep)
             for (size_t d = 0; d < 4; d++)
@@ -186,7 +200,7 @@ int main(int argc, char** argv)
     rep.counters["bound_argv_len_deep_on_4_declarations"] = n_deep;
     rep.counters["declarations"] = decls.size();
     rep.counters["alphabet_tokens"] = alpha.size();
-    rep.notes["rule"] = "12 declarations x every vector of length <= bound over the 48-token byte-level alphabet x "
+    rep.notes["rule"] = "12 declarations x every vector of length <= bound over the 51-token byte-level alphabet x "
                         "environments, plus long-token stress cases; non-trivial = distinct (declaration, token-class "
                         "sequence, environment class) with an option-like or malformed token or a bound environment";
     mc::write_out(a, rep);
